@@ -23,19 +23,37 @@ type kindT struct {
 	t    reflect.Type
 	vals []interface{}
 	strs []string
+	// fresh, if set, builds value i anew on every use (pointer kinds: two members never share a pointer, equality is
+	// equality of what they point to)
+	fresh func(i int) interface{}
+}
+
+func (k kindT) val(i int) interface{} {
+	if k.fresh != nil {
+		return k.fresh(i)
+	}
+	return k.vals[i]
 }
 
 var kindsT = []kindT{
-	{"string", reflect.TypeOf(""), []interface{}{"", "x", "y"}, []string{"", "x", "y"}},
-	{"int32", reflect.TypeOf(int32(0)), []interface{}{int32(0), int32(1), int32(2)}, []string{"0", "1", "2"}},
+	{"string", reflect.TypeOf(""), []interface{}{"", "x", "y"}, []string{"", "x", "y"}, nil},
+	{"int32", reflect.TypeOf(int32(0)), []interface{}{int32(0), int32(1), int32(2)}, []string{"0", "1", "2"}, nil},
 	// further comparable kinds (2..3 members): emptiness of a fixed-size array is "all elements zero", not "length 0"
-	{"[2]int32", reflect.TypeOf([2]int32{}), []interface{}{[2]int32{}, [2]int32{1, 0}, [2]int32{0, 2}}, []string{"[0 0]", "[1 0]", "[0 2]"}},
-	{"float64", reflect.TypeOf(float64(0)), []interface{}{float64(0), 1.5, 2.5}, []string{"0", "1.5", "2.5"}},
-	{"bool", reflect.TypeOf(false), []interface{}{false, true, true}, []string{"false", "true", "true"}},
-	{"uint8", reflect.TypeOf(uint8(0)), []interface{}{uint8(0), uint8(1), uint8(255)}, []string{"0", "1", "255"}},
+	{"[2]int32", reflect.TypeOf([2]int32{}), []interface{}{[2]int32{}, [2]int32{1, 0}, [2]int32{0, 2}}, []string{"[0 0]", "[1 0]", "[0 2]"}, nil},
+	{"float64", reflect.TypeOf(float64(0)), []interface{}{float64(0), 1.5, 2.5}, []string{"0", "1.5", "2.5"}, nil},
+	{"bool", reflect.TypeOf(false), []interface{}{false, true, true}, []string{"false", "true", "true"}, nil},
+	{"uint8", reflect.TypeOf(uint8(0)), []interface{}{uint8(0), uint8(1), uint8(255)}, []string{"0", "1", "255"}, nil},
 	// different values that print alike with %v: equality is equality of values, not of renderings
-	{"[2]string", reflect.TypeOf([2]string{}), []interface{}{[2]string{}, [2]string{"a b", ""}, [2]string{"a", "b "}}, []string{"zero", "x", "y"}},
-	{"struct{A,B string}", reflect.TypeOf(struct{ A, B string }{}), []interface{}{struct{ A, B string }{}, struct{ A, B string }{"x y", "z"}, struct{ A, B string }{"x", "y z"}}, []string{"zero", "x", "y"}},
+	{"[2]string", reflect.TypeOf([2]string{}), []interface{}{[2]string{}, [2]string{"a b", ""}, [2]string{"a", "b "}}, []string{"zero", "x", "y"}, nil},
+	{name: "*int32", t: reflect.TypeOf((*int32)(nil)), vals: []interface{}{(*int32)(nil), (*int32)(nil), (*int32)(nil)}, strs: []string{"nil", "->7", "->8"},
+		fresh: func(i int) interface{} {
+			if i == 0 {
+				return (*int32)(nil)
+			}
+			v := int32(6 + i)
+			return &v
+		}},
+	{"struct{A,B string}", reflect.TypeOf(struct{ A, B string }{}), []interface{}{struct{ A, B string }{}, struct{ A, B string }{"x y", "z"}, struct{ A, B string }{"x", "y z"}}, []string{"zero", "x", "y"}, nil},
 }
 
 // canonical form of an error for unordered comparison: group clauses as sorted member lists + text.
@@ -158,7 +176,7 @@ func structCasesV(c *runner.Ctx, k int, kd kindT, firstPrefix string) {
 				o := reflect.New(st).Elem()
 				x := code
 				for i := 0; i < k; i++ {
-					o.Field(i).Set(reflect.ValueOf(kd.vals[x%3]))
+					o.Field(i).Set(reflect.ValueOf(kd.val(x % 3)))
 					x /= 3
 				}
 				return o
@@ -198,8 +216,8 @@ func structCasesV(c *runner.Ctx, k int, kd kindT, firstPrefix string) {
 			run1("map-of-values-3", vmp3.Interface(), true)
 			for pv := 0; pv < 3; pv++ {
 				p := reflect.New(parent).Elem()
-				p.Field(0).Set(reflect.ValueOf(kd.vals[pv]))
-				p.Field(1).Set(reflect.ValueOf(kd.vals[(pv*2)%3]))
+				p.Field(0).Set(reflect.ValueOf(kd.val(pv)))
+				p.Field(1).Set(reflect.ValueOf(kd.val((pv * 2) % 3)))
 				p.Field(2).Set(obj.Addr())
 				ks := reflect.MakeSlice(reflect.SliceOf(st), 2, 2)
 				ks.Index(0).Set(other)
@@ -213,9 +231,9 @@ func structCasesV(c *runner.Ctx, k int, kd kindT, firstPrefix string) {
 				p.Field(5).Index(1).Set(other)
 				run1("nested+parent", p.Addr().Interface(), true)
 				e := reflect.New(embOuter).Elem()
-				e.Field(0).Set(reflect.ValueOf(kd.vals[pv]))
+				e.Field(0).Set(reflect.ValueOf(kd.val(pv)))
 				e.Field(1).Set(obj)
-				e.Field(2).Set(reflect.ValueOf(kd.vals[(pv+1)%3]))
+				e.Field(2).Set(reflect.ValueOf(kd.val((pv + 1) % 3)))
 				e.Field(3).Set(other.Addr())
 				run1("embedded+outer", e.Addr().Interface(), true)
 			}
@@ -428,7 +446,7 @@ func mapUrlCases(c *runner.Ctx, k int, kd kindT) {
 				m := reflect.MakeMap(reflect.MapOf(reflect.TypeOf(""), kd.t))
 				x := code
 				for i := 0; i < k; i++ {
-					m.SetMapIndex(reflect.ValueOf(fmt.Sprintf("k%d", i)), reflect.ValueOf(kd.vals[x%3]))
+					m.SetMapIndex(reflect.ValueOf(fmt.Sprintf("k%d", i)), reflect.ValueOf(kd.val(x % 3)))
 					x /= 3
 				}
 				return m
@@ -509,6 +527,9 @@ func run(c *runner.Ctx) {
 		for k := 2; k <= maxK; k++ {
 			if ki >= 2 && k > 3 && ki < 6 {
 				continue // 4 members: string, int32 and the two render-alike kinds
+			}
+			if kd.fresh != nil {
+				continue // Map documents scalar values
 			}
 			c.Space(fmt.Sprintf("map-url/%s/%d-keys", kd.name, k))
 			mapUrlCases(c, k, kd)
